@@ -15,6 +15,8 @@ from tiv.match import match_expr, match_stmt, find_stmts
 from tiv.sem import expand, same, same_bool, origin, literals, lit, trace
 
 RULES = {
+    "MEMO": "memo safety (shared, rules/common.py): a memoised function in this property's files (or called from them) is a function of its "
+            "arguments only (no terminal/ambient/receiver state outside the key) and no caller mutates its result in place",
     "R1": "query sites are siblings: every request passed to query_terminal ends with DA1 (the sentinel every terminal answers); the stop "
           "predicate is either complete (`not s.endswith(b'c')`) - only where no earlier reply can contain 'c' (XTWINOPS, kitty OK) - or prefix "
           "(`not s.endswith(CSI_b)`), in which case the rest of the DA1 reply is drained by read_tty() under `if _queries_enabled` inside the same "
@@ -316,6 +318,9 @@ def run(ck, m):
     for fn_, nm in ((ks, "KittyImage"), (isup, "ITerm2Image")):
         ini = next((st for t, st in stores_in(ast.Module(body=fn_.body, type_ignores=[])) if norm(t) == "cls._supported" and norm(st.value) == "False"), None)
         ck.ob("R5", fn_, ini is not None, f"{nm}.is_supported must default to not supported when there is no (valid) reply", stmt=f"{nm}.is_supported: defaults to False")
+
+    from rules.common import rule_memo_safety
+    rule_memo_safety(ck, m, "MEMO", "C12")
 
 
 MUTANTS = [
